@@ -604,7 +604,7 @@ func posString(fset *token.FileSet, p token.Pos) string {
 		return "?"
 	}
 	ps := fset.Position(p)
-	return fmt.Sprintf("%s:%d", strings.TrimPrefix(ps.Filename, "/repo/"), ps.Line)
+	return fmt.Sprintf("%s:%d", strings.TrimPrefix(ps.Filename, repoDir+"/"), ps.Line)
 }
 
 func sortedKeys[V any](m map[string]V) []string {
